@@ -1475,6 +1475,9 @@ class Engine:
                 return self.call_value(self.world[name], args, kwargs, e)
             raise Unsupported(f'{self.c.qual}: unmodelled call {ftxt}(...)')
         if isinstance(e.func, ast.Attribute):
+            if ftxt in self.c.ctors:
+                args, kwargs = self.args(e)
+                return self.c.ctors[ftxt](self, args, kwargs)
             lib = self.library(ftxt, e)
             if lib is not NotImplemented:
                 return lib
